@@ -13,6 +13,7 @@ import (
 	ophosttypes "github.com/initia-labs/OPinit/x/ophost/types"
 
 	"verifmc/engine"
+	"verifmc/ref"
 	"verifmc/world"
 )
 
@@ -437,6 +438,32 @@ func c05CreateProbes(res *engine.Result, known func(*engine.Violation) (string, 
 			accepted++
 			if p <= 0 {
 				v = tagged(viol("accepted-bridge-has-positive-period", "bridge with finalization period %s accepted", p), "period-sign", "negative")
+			}
+			// every accepted period is honoured from the first moment: an output proposed now is not final
+			// now (nor one second before its window ends, where that moment can be reached), the query names
+			// no final output, a claim is refused and the challenger can still delete it
+			if id := r.Resp.(*ophosttypes.MsgCreateBridgeResponse).BridgeId; p > time.Second && v == nil {
+				root := ref.Sum256([]byte("c05 create probe"))
+				if pr := w.Deliver(ctx, ophosttypes.NewMsgProposeOutput(world.Addr("proposer").String(), id, 1, 5, root[:])); !pr.OK() {
+					v = viol("harness-expectation", "propose on the new bridge failed: %v", pr.Err)
+				} else {
+					at := []sdk.Context{ctx}
+					if p < 1<<61 {
+						at = append(at, world.Advance(ctx, p-time.Second-time.Nanosecond))
+					}
+					for _, c := range at {
+						if fin, err := w.HK.IsFinalized(c, id, 1); err != nil || fin {
+							v = tagged(viol("no-finalization-before-the-window", "period %s: an output proposed at %s counts as final at %s (err=%v)", p, ctx.BlockTime().Sub(world.L1GenesisTime), c.BlockTime().Sub(world.L1GenesisTime), err), "period", p.String())
+						}
+						if lf, err := w.Q.LastFinalizedOutput(c, &ophosttypes.QueryLastFinalizedOutputRequest{BridgeId: id}); err == nil && lf.OutputIndex != 0 && v == nil {
+							v = tagged(viol("last-finalized-query-names-highest-final-index", "period %s: LastFinalizedOutput names index %d inside the window", p, lf.OutputIndex), "period", p.String())
+						}
+						dctx, _ := c.CacheContext()
+						if dr := w.Deliver(dctx, ophosttypes.NewMsgDeleteOutput(world.Addr("challenger").String(), id, 1)); !dr.OK() && v == nil {
+							v = tagged(viol("non-final-output-can-be-deleted", "period %s: delete refused inside the window: %v", p, dr.Err), "period", p.String())
+						}
+					}
+				}
 			}
 		} else if w.Digest(ctx) != before {
 			v = viol("rejected-message-has-no-effect", "rejected CreateBridge changed state")
